@@ -556,6 +556,8 @@ func SetMessageSizeLimit(maxMessageSize uint32) {
 	} else {
 		messageSizeLimit = maxMessageSize
 	}
+	// a frame within the limit must not inflate beyond it either
+	xfer.SetUnpackSizeLimit(messageSizeLimit)
 }
 
 func checkMessageSize(messageSize uint32) error {
